@@ -741,7 +741,7 @@ dead_run(Params *p)
 	int rounds = 1 + (int) W(0, 2);
 	for (int round = 0; round < rounds; round++) {
 		int  ci      = (int) W(0, nctx - 1);
-		long how     = W(0, 4); // 0 none, 1 cancel queued send, 2 send timeout, 3 superseded, 4 receive timed out
+		long how     = W(0, 5); // 0 none, 1 cancel queued send, 2 send timeout, 3 superseded, 4 receive timed out, 5 connection lost after the send
 		bool stalled = false;
 		if (how >= 1 && how <= 3 && tr == TR_TCP && nctx > 1) {
 			// occupy the only connection so that the next send stays queued in the socket
@@ -794,6 +794,23 @@ dead_run(Params *p)
 				if (r.result == 0)
 					VIOL("reply_without_reply", "ctx%d received a reply nobody sent", ci);
 				dead++;
+			}
+		}
+		else if (how == 5) {
+			// the request reaches the peer, then its connection goes away; nobody
+			// ever asks for the reply, the next request simply replaces it
+			UAio u;
+			submit(u, ci, ser++, 0, 3000);
+			if (reap(u) == 0) {
+				nng_msg *m = NULL;
+				if (nng_recvmsg(rep, &m, 0) == 0) {
+					nng_pipe pp = nng_msg_get_pipe(m);
+					nng_msg_free(m);
+					(void) nng_pipe_close(pp);
+					sim_quiesce(5000000);
+					dead++;
+					sim_probe("c04_dead_connection_lost_after_send");
+				}
 			}
 		}
 		(void) stalled;
@@ -865,6 +882,8 @@ dead_run(Params *p)
 				    ci, used, kind, id);
 			if (!correct)
 				VIOL("reply_without_reply", "ctx%d received a reply although none was sent to its request", ci);
+			if (W(0, 2) == 0)
+				expect_estate(ci, "a completed exchange");
 			if (W(0, 2) == 0) {
 				// the exchange is complete; losing the connection afterwards does not make
 				// a receive without a request anything but out-of-order use
